@@ -11,7 +11,7 @@ EXPLANATION = (
     "disjunction, concatenation and repetition = conjunction, repetition finalised by a product with its own range), and "
     "the result shapes of Variance conjunction / disjunction / product (anything combined with an unbounded term is "
     "never invariant and never regains an upper bound).  The arithmetic on the natural ranges themselves is not decided.")
-RULES = "C10.term (TABLE), C10.final (TABLE), C10.leaf (TABLE), C10.ops (SIBLING), C10.shape (TABLE)"
+RULES = "C10.term (TABLE), C10.final (TABLE), C10.leaf (TABLE), C10.ops (SIBLING), C10.shape (TABLE), C10.range (TABLE on a grid)"
 
 TERM = "token::variance::invariant::term::Termination"
 COAL = "token::variance::invariant::term::Coalescence"
@@ -50,6 +50,7 @@ def run(ctx):
     rule_leaf(F, R)
     rule_ops(F, R)
     rule_shape(F, R)
+    rule_range(F, R)
 
 
 def new_interp(F, stubs=None):
@@ -356,3 +357,119 @@ def rule_shape(F, R):
     cases = I.explore(lambda: I.call_item(disj, [shapes["U"]("l"), shapes["U"]("r")], inst=False))
     for c in cases:
         R.check(classify(c.result) == "U", "C10.shape", "disjunction/UU", "U", disj.where())
+
+
+# ---------------------------------------------------------------------------------------------------
+# C10.range: the operations on bounded variant ranges against interval arithmetic
+
+
+def range_grid():
+    out = {}
+    for a in (1, 2, 3):
+        out["Lower(%d)" % a] = (Adt(BVR, "Lower", {"0": a}), (a, None))
+        out["Upper(%d)" % a] = (Adt(BVR, "Upper", {"0": a}), (0, a))
+        for e in (1, 2, 3):
+            out["Both(%d+%d)" % (a, e)] = (Adt(BVR, "Both", {"lower": a, "extent": e}), (a, a + e))
+    return out
+
+
+def decode_range(v):
+    """BoundedVariantRange | Boundedness<BoundedVariantRange> -> (lower, upper or None)."""
+    v = strip(v)
+    if isinstance(v, Adt) and v.path == BND:
+        if v.variant == "Unbounded":
+            return (0, None)
+        v = strip(v.fields.get("0"))
+    if not isinstance(v, Adt) or v.path != BVR:
+        return None
+    f = {k: strip(x) for k, x in v.fields.items()}
+    if not all(isinstance(x, int) for x in f.values()):
+        return None
+    if v.variant == "Lower":
+        return (f["0"], None)
+    if v.variant == "Upper":
+        return (0, f["0"])
+    return (f["lower"], f["lower"] + f["extent"])
+
+
+def rule_range(F, R):
+    """Each bound of a result is computed by one of finitely many polynomial expressions of degree <= 2 in
+    the magnitudes, selected by the shapes of the operands (Lower / Upper / Both) and by comparisons with zero;
+    agreement with interval arithmetic on three values per magnitude in every shape combination therefore
+    decides which expression is used.  Containment is required (a looser range is sound)."""
+    import itertools
+    from ..teval import Interp
+    I = Interp(F)
+    grid = range_grid()
+    add = lambda x, y: None if x is None or y is None else x + y
+    mul = lambda x, y: None if x is None or y is None else x * y
+    binary = {
+        "conjunction": (F.find("<%s as token::variance::ops::Conjunction>::conjunction" % BVR, trait_ref="Conjunction>"),
+                        lambda a, b: (a[0] + b[0], add(a[1], b[1]))),
+        "disjunction": (F.find("<%s as token::variance::ops::Disjunction>::disjunction" % BVR, trait_ref="Disjunction>"),
+                        lambda a, b: (min(a[0], b[0]), None if a[1] is None or b[1] is None else max(a[1], b[1]))),
+        "product": (F.find("<%s as token::variance::ops::Product>::product" % BVR, trait_ref="Product>"),
+                    lambda a, b: (a[0] * b[0], mul(a[1], b[1]))),
+    }
+    n = 0
+    for opname, (it, ref) in binary.items():
+        for (an, (a, ar)), (bn, (b, br)) in itertools.product(grid.items(), repeat=2):
+            cases = I.explore(lambda: I.call_item(it, [a, b]))
+            res = tabulate.single(cases)
+            got = decode_range(res)
+            want = ref(ar, br)
+            n += 1
+            name = "%s/%s,%s" % (opname, an, bn)
+            if contains(got, want):
+                R.ok("C10.range", name, "%s contains %s" % (got, want), it.where(), sample=(n % 97 == 0))
+            else:
+                R.fail("C10.range", name, "%s of the ranges %s and %s is %r (range %s), interval arithmetic gives %s: a match whose "
+                       "depth lies outside the reported bounds becomes possible" % (opname, ar, br, res, got, want), it.where())
+    pn = F.find("<%s as token::variance::ops::Product>::product" % BVR, trait_ref="Product<std::num::NonZero")
+    for (an, (a, ar)), k in itertools.product(grid.items(), (1, 2, 3)):
+        got = decode_range(tabulate.single(I.explore(lambda: I.call_item(pn, [a, k]))))
+        want = (ar[0] * k, mul(ar[1], k))
+        n += 1
+        R.check(contains(got, want), "C10.range", "product-n/%s x %d" % (an, k), "contains %s" % (want,), pn.where(),
+                fail_msg="the range %s repeated %d times is reported as %s, interval arithmetic gives %s (`<a/b/:1,3>c` matches depth "
+                         "7 but would report an upper bound below it)" % (ar, k, got, want))
+    tr = F.find("%s::translation" % BVR)
+    for (an, (a, ar)), v in itertools.product(grid.items(), (0, 1, 2)):
+        got = decode_range(tabulate.single(I.explore(lambda: I.call_item(tr, [a, v]))))
+        want = (ar[0] + v, add(ar[1], v))
+        n += 1
+        R.check(contains(got, want), "C10.range", "translation/%s + %d" % (an, v), "contains %s" % (want,), tr.where(),
+                fail_msg="the range %s translated by %d is reported as %s, interval arithmetic gives %s" % (ar, v, got, want))
+    un = F.find("%s::union" % BVR)
+    un_inst = (F.instances_of(un, "usize") or [None])[0]
+    for (an, (a, ar)), v in itertools.product(grid.items(), (0, 1, 2, 5)):
+        got = decode_range(tabulate.single(I.explore(lambda: I.call_item(un, [a, v], inst=un_inst))))
+        want = (min(ar[0], v), None if ar[1] is None else max(ar[1], v))
+        n += 1
+        R.check(contains(got, want), "C10.range", "union/%s u %d" % (an, v), "contains %s" % (want,), un.where(),
+                fail_msg="the union of the range %s with the invariant %d is reported as %s, expected to contain %s" % (ar, v, got, want))
+    ou = F.find("<%s as token::variance::natural::OpenedUpperBound>::opened_upper_bound" % BVR)
+    for an, (a, ar) in grid.items():
+        got = decode_range(tabulate.single(I.explore(lambda: I.call_item(ou, [a]))))
+        want = (ar[0], None)
+        n += 1
+        R.check(contains(got, want) and got is not None and got[1] is None, "C10.range", "opened_upper_bound/" + an, "no upper bound, lower kept: %s" % (want,), ou.where(),
+                fail_msg="opening the upper bound of %s gives %s, expected %s" % (ar, got, want))
+    fco = F.find("token::variance::Variance::from_closed_and_open")
+    fco_inst = (F.instances_of(fco, "Option<usize>") or F.instances_of(fco) or [None])[0]
+    for lo, hi in itertools.product(range(0, 4), [None, 0, 1, 2, 3]):
+        res = strip(tabulate.single(I.explore(lambda: I.call_item(fco, [lo, some(hi) if hi is not None else none()], inst=fco_inst))))
+        if isinstance(res, Adt) and res.path == VAR and res.variant == "Invariant":
+            x = strip(res.fields["0"])
+            got = (x, x) if isinstance(x, int) else None
+        elif isinstance(res, Adt) and res.path == VAR:
+            got = decode_range(res.fields["0"])
+        else:
+            got = None
+        a, b = (lo, hi) if hi is None or lo <= hi else (hi, lo)
+        want = (a, b)
+        n += 1
+        R.check(got == want, "C10.range", "from_closed_and_open(%s,%s)" % (lo, hi), str(want), fco.where(),
+                fail_msg="a repetition written `:%s,%s` has the range %s, expected %s (bounds reordered, an open upper bound stays open)" % (
+                    lo, "" if hi is None else hi, got, want))
+    R.floor("C10.range", "range cells", n, 600)
